@@ -80,6 +80,23 @@ static void check_sort_family(Ctx& ctx, const std::vector<double>& v) {
 // value letter for rank r: negative, zero and positive values, exactly representable, halves exact
 static double rank_val(int r) { return (r - 2) * 0.75; }
 
+// Monotone value maps.  A comparison-based implementation behaves identically under every strictly monotone map of
+// the values; an implementation that looks at magnitudes or differences (absolute tolerances, float casts ...) does
+// not, so every weak order / stream / permutation is also enumerated through maps that produce denormal-scale values,
+// values far below eps, adjacent doubles (below 0.5 and above 1, the latter decreasing) and huge values.
+static const int NMAP = 6;
+static const char* MAPN[NMAP] = {"plain", "r*1e-18", "1e-300*(r+1)", "0.25+r*2^-54", "-(1+r*eps)", "r*1e300/8"};
+static double vmap(int m, int r, double plain) {
+    switch (m) {
+    case 0: return plain;
+    case 1: return r * 1e-18;
+    case 2: return 1e-300 * (r + 1);
+    case 3: return 0.25 + r * 0x1p-54;
+    case 4: return -(1.0 + r * EPS);
+    default: return r * (1e300 / 8);
+    }
+}
+
 static void run_sort(Ctx& ctx) {
     // every weak order of n <= 6 elements = every sequence over {0..n-1} whose value set is {0..k-1}
     for (int n = 1; n <= 6; ++n) {
@@ -88,11 +105,12 @@ static void run_sort(Ctx& ctx) {
             unsigned mask = 0;
             for (int v : s) mask |= 1u << v;
             if ((mask & (mask + 1)) == 0) {   // initial segment of values used
-                if (ctx.take("sort.weakorder", P().kv("n", n).kv("seq", digits(s)))) {
-                    std::vector<double> v;
-                    for (int r : s) v.push_back(rank_val(r));
-                    check_sort_family(ctx, v);
-                }
+                for (int m = 0; m < NMAP; ++m)
+                    if (ctx.take("sort.weakorder", P().kv("n", n).kv("seq", digits(s)).kv("map", MAPN[m]))) {
+                        std::vector<double> v;
+                        for (int r : s) v.push_back(vmap(m, r, rank_val(r)));
+                        check_sort_family(ctx, v);
+                    }
             }
             int p = n - 1;
             while (p >= 0 && s[(size_t)p] == n - 1) s[(size_t)p--] = 0;
@@ -105,18 +123,20 @@ static void run_sort(Ctx& ctx) {
         std::vector<int> p((size_t)n);
         for (int i = 0; i < n; ++i) p[(size_t)i] = i;
         do {
-            if (ctx.take("sort.perm", P().kv("n", n).kv("perm", digits(p)))) {
-                std::vector<double> v;
-                for (int r : p) v.push_back(rank_val(r));
-                check_sort_family(ctx, v);
-            }
+            for (int m = 0; m < NMAP; ++m)
+                if (ctx.take("sort.perm", P().kv("n", n).kv("perm", digits(p)).kv("map", MAPN[m]))) {
+                    std::vector<double> v;
+                    for (int r : p) v.push_back(vmap(m, r, rank_val(r)));
+                    check_sort_family(ctx, v);
+                }
         } while (std::next_permutation(p.begin(), p.end()));
     }
     // structured long arrays
     const char* letters[] = {"sorted", "reversed", "constant", "two-valued-alt", "two-valued-blocks", "lcg8", "lcg-distinct", "sorted-with-ties", "almost-sorted"};
     for (int n : {1, 2, 9, 10, 1000, 2000}) {
         for (int l = 0; l < 9; ++l) {
-            if (!ctx.take("sort.long", P().kv("n", n).kv("letter", letters[l]))) continue;
+          for (int m = 0; m < ((l == 3 || l == 5) ? NMAP : 1); ++m) {
+            if (!ctx.take("sort.long", P().kv("n", n).kv("letter", letters[l]).kv("map", MAPN[m]))) continue;
             std::vector<double> v((size_t)n);
             for (int i = 0; i < n; ++i) {
                 double t = 0;
@@ -131,9 +151,12 @@ static void run_sort(Ctx& ctx) {
                 case 7: t = i / 3; break;
                 default: t = (i == n / 2) ? -7 : i; break;
                 }
+                if (l == 3) t = vmap(m, (i % 2), t);
+                if (l == 5) t = vmap(m, (int)t + 4, t);
                 v[(size_t)i] = t;
             }
             check_sort_family(ctx, v);
+          }
         }
     }
 }
@@ -208,8 +231,10 @@ static void run_medfilt(Ctx& ctx, bool T) {
                 std::vector<int> s((size_t)k, 0);
                 const auto frs = framings3(k);
                 while (true) {
-                    if (ctx.take("medfilt.ternary", P().kv("order", order).kv("init", (int)init).kv("seq", digits(s)))) {
-                        std::vector<double> x(s.begin(), s.end());
+                    for (int m = 0; m < NMAP; ++m)
+                    if (ctx.take("medfilt.ternary", P().kv("order", order).kv("init", (int)init).kv("seq", digits(s)).kv("map", MAPN[m]))) {
+                        std::vector<double> x;
+                        for (int r : s) x.push_back(vmap(m, r, r));
                         int nz = 0;
                         for (int v : s) nz += v != 0;
                         if (nz >= 2) ctx.nontrivial();
@@ -227,10 +252,13 @@ static void run_medfilt(Ctx& ctx, bool T) {
             std::vector<int> p = {1, 2, 3, 4, 5, 6, 7};
             const auto frs = framings3(7);
             do {
-                if (ctx.take("medfilt.perm7", P().kv("order", order).kv("init", (int)init).kv("perm", digits(p)))) {
-                    ctx.nontrivial();
-                    check_medstream(ctx, order, init, std::vector<double>(p.begin(), p.end()), frs);
-                }
+                for (int m = 0; m < NMAP; ++m)
+                    if (ctx.take("medfilt.perm7", P().kv("order", order).kv("init", (int)init).kv("perm", digits(p)).kv("map", MAPN[m]))) {
+                        ctx.nontrivial();
+                        std::vector<double> x;
+                        for (int r : p) x.push_back(vmap(m, r, r));
+                        check_medstream(ctx, order, init, x, frs);
+                    }
             } while (std::next_permutation(p.begin(), p.end()));
         }
     // long streams, LCG quantised to 8 levels, 4 framings; every order 3..64 in the thorough tier
@@ -247,11 +275,15 @@ static void run_medfilt(Ctx& ctx, bool T) {
         const int N = T ? 10000 : 2000;
         for (int order : lo)
             for (double init : inits)
-                for (int tag = 0; tag < 2; ++tag) {
-                    if (!ctx.take("medfilt.long", P().kv("order", order).kv("init", (int)init).kv("tag", tag).kv("len", N))) continue;
+                for (int tag = 0; tag < 2; ++tag)
+                  for (int m = 0; m < NMAP; ++m) {
+                    if (!ctx.take("medfilt.long", P().kv("order", order).kv("init", (int)init).kv("tag", tag).kv("len", N).kv("map", MAPN[m]))) continue;
                     ctx.nontrivial();
                     std::vector<double> x((size_t)N);
-                    for (int i = 0; i < N; ++i) x[(size_t)i] = std::floor(lcg_val(1610 + (uint64_t)tag, (uint64_t)i) * 4);   // -4..3
+                    for (int i = 0; i < N; ++i) {
+                        const double t = std::floor(lcg_val(1610 + (uint64_t)tag, (uint64_t)i) * 4);   // -4..3
+                        x[(size_t)i] = vmap(m, (int)t + 4, t);
+                    }
                     std::vector<std::vector<int>> frs;
                     frs.push_back({N});
                     frs.push_back(std::vector<int>((size_t)N, 1));
@@ -302,11 +334,12 @@ static void run_medfilt(Ctx& ctx, bool T) {
             for (int L = 1; L <= KX; ++L) {
                 std::vector<int> s((size_t)L, 0);
                 while (true) {
-                    if (ctx.take("medfilt.func", P().kv("n", n).kv("len", L).kv("seq", digits(s)))) {
+                    for (int m = 0; m < NMAP; ++m)
+                    if (ctx.take("medfilt.func", P().kv("n", n).kv("len", L).kv("seq", digits(s)).kv("map", MAPN[m]))) {
                         std::vector<double> x;
                         int nz = 0;
                         for (int v : s) {
-                            x.push_back(alpha[v]);
+                            x.push_back(vmap(m, v, alpha[v]));
                             nz += v != 1;
                         }
                         if (nz >= 2) ctx.nontrivial();
@@ -319,8 +352,9 @@ static void run_medfilt(Ctx& ctx, bool T) {
                 }
             }
             for (int L = 1; L <= 12; ++L)
-                for (int l = 0; l < 7; ++l) {
-                    if (!ctx.take("medfilt.func.letters", P().kv("n", n).kv("len", L).kv("letter", l))) continue;
+                for (int l = 0; l < 7; ++l)
+                  for (int m = 0; m < NMAP; ++m) {
+                    if (!ctx.take("medfilt.func.letters", P().kv("n", n).kv("len", L).kv("letter", l).kv("map", MAPN[m]))) continue;
                     std::vector<double> x((size_t)L);
                     for (int i = 0; i < L; ++i) {
                         switch (l) {
@@ -330,6 +364,8 @@ static void run_medfilt(Ctx& ctx, bool T) {
                         case 3: x[(size_t)i] = L - i; break;
                         default: x[(size_t)i] = std::floor(lcg_val(1620 + (uint64_t)l, (uint64_t)i) * 4); break;
                         }
+                        // all letters take integer values in [-12, 12]: rank = value + 12
+                        x[(size_t)i] = vmap(m, (int)x[(size_t)i] + 12, x[(size_t)i]);
                     }
                     if (L >= 2) ctx.nontrivial();
                     one(n, x);
@@ -587,6 +623,120 @@ static void run_corr_n7(Ctx& ctx) {
     } while (std::next_permutation(px.begin(), px.end()));
 }
 
+// ---------------------------------------------------------------------------------------------- corr on long samples
+// number of inversions of a sequence (merge sort), O(n log n)
+static long long inversions(std::vector<double>& a, std::vector<double>& tmp, size_t lo, size_t hi) {
+    if (hi - lo < 2) return 0;
+    const size_t mid = lo + (hi - lo) / 2;
+    long long inv = inversions(a, tmp, lo, mid) + inversions(a, tmp, mid, hi);
+    size_t i = lo, j = mid, k = lo;
+    while (i < mid && j < hi) {
+        if (a[j] < a[i]) {
+            inv += (long long)(mid - i);
+            tmp[k++] = a[j++];
+        } else {
+            tmp[k++] = a[i++];
+        }
+    }
+    while (i < mid) tmp[k++] = a[i++];
+    while (j < hi) tmp[k++] = a[j++];
+    for (size_t t = lo; t < hi; ++t) a[t] = tmp[t];
+    return inv;
+}
+// permutation of 0..n-1 from fixed LCG keys (ties between keys broken by index: a permutation by construction)
+static std::vector<int> lcg_perm(uint64_t tag, int n) {
+    std::vector<int> idx((size_t)n), rank((size_t)n);
+    for (int i = 0; i < n; ++i) idx[(size_t)i] = i;
+    std::stable_sort(idx.begin(), idx.end(), [&](int a, int b) { return lcg_val(tag, (uint64_t)a) < lcg_val(tag, (uint64_t)b); });
+    for (int i = 0; i < n; ++i) rank[(size_t)idx[(size_t)i]] = i;
+    return rank;
+}
+static std::vector<int> ranks_fast(const std::vector<double>& v) {   // tie-free data
+    const int n = (int)v.size();
+    std::vector<int> idx((size_t)n), rank((size_t)n);
+    for (int i = 0; i < n; ++i) idx[(size_t)i] = i;
+    std::sort(idx.begin(), idx.end(), [&](int a, int b) { return v[(size_t)a] < v[(size_t)b]; });
+    for (int i = 0; i < n; ++i) rank[(size_t)idx[(size_t)i]] = i;
+    return rank;
+}
+
+// Lengths around and far beyond the sizes at which 32-bit intermediate products (n*n, n*(n*n-1), pair counts) overflow.
+// x is a fixed pseudo-random permutation mapped linearly (tie-free by construction); y is a strictly increasing /
+// decreasing, linear / nonlinear function of x, or an independent permutation.
+static void run_corr_large(Ctx& ctx, bool T) {
+    std::vector<int> lens = {100, 1000, 1290, 1291, 1625, 2000, 2048, 5000, 20000};
+    if (T) lens.push_back(100000);
+    const char* REL[6] = {"increasing-linear", "decreasing-linear", "increasing-cubic", "decreasing-exp", "permutation-pair-a", "permutation-pair-b"};
+    const char* TYN[3] = {"pearson", "spearman", "kendall"};
+    const Correlation TYS[3] = {Correlation::Pearson, Correlation::Spearman, Correlation::Kendall};
+    for (int n : lens)
+        for (int rel = 0; rel < 6; ++rel)
+            for (int ty = 0; ty < 3; ++ty) {
+                // Kendall's pair loop is O(n^2) with int pair counters: n(n-1)/2 exceeds INT_MAX beyond n = 65536 (outside the stated lengths)
+                if (ty == 2 && n > 20000) continue;
+                if (!ctx.take("corr.large", P().kv("n", n).kv("relation", REL[rel]).kv("type", TYN[ty]))) continue;
+                ctx.nontrivial();
+                const std::vector<int> px = lcg_perm(1650 + (uint64_t)rel, n);
+                std::vector<double> x((size_t)n), y((size_t)n);
+                std::vector<int> py;
+                if (rel >= 4) py = lcg_perm(1660 + (uint64_t)rel, n);
+                for (int i = 0; i < n; ++i) {
+                    const double xv = 0.001 * px[(size_t)i] - 3.7;
+                    x[(size_t)i] = xv;
+                    switch (rel) {
+                    case 0: y[(size_t)i] = 2 * xv + 1; break;
+                    case 1: y[(size_t)i] = -0.5 * xv + 3; break;
+                    case 2: y[(size_t)i] = xv * xv * xv; break;
+                    case 3: y[(size_t)i] = std::exp(-xv); break;
+                    default: y[(size_t)i] = 0.002 * py[(size_t)i] + 1; break;
+                    }
+                }
+                // the construction must be tie-free and strictly monotone where claimed (guards the oracle, not the library)
+                const std::vector<int> rx = ranks_fast(x), ry = ranks_fast(y);
+                bool inc = true, dec = true;
+                for (int i = 0; i < n; ++i) {
+                    inc &= rx[(size_t)i] == ry[(size_t)i];
+                    dec &= rx[(size_t)i] == n - 1 - ry[(size_t)i];
+                }
+                if ((rel == 0 || rel == 2) != inc || (rel == 1 || rel == 3) != dec) {
+                    ctx.cap("corr.large: value letter not strictly monotone at this length (harness letter, case skipped)");
+                    continue;
+                }
+                const arr_real ax = mk(x), ay = mk(y);
+                const double got = dsplib::corr(ax, ay, TYS[ty]), swp = dsplib::corr(ay, ax, TYS[ty]);
+                ld ref;
+                double tol;
+                if (ty == 0) {
+                    ref = pearson_ref(x, y);
+                    tol = 16 * EPS * (double)n * pearson_kappa(x, y);
+                } else if (ty == 1) {
+                    long long sd2 = 0;
+                    for (int i = 0; i < n; ++i) {
+                        const long long dd = rx[(size_t)i] - ry[(size_t)i];
+                        sd2 += dd * dd;
+                    }
+                    ref = 1 - 6 * (ld)sd2 / ((ld)n * ((ld)n * n - 1));
+                    tol = 16 * EPS * (double)n * 4.0;   // moment formula on ranks: kappa = n*sum r^2 / (n sum r^2 - (sum r)^2) -> 4
+                } else {
+                    std::vector<int> order((size_t)n);
+                    for (int i = 0; i < n; ++i) order[(size_t)rx[(size_t)i]] = i;
+                    std::vector<double> sq((size_t)n), tmp((size_t)n);
+                    for (int i = 0; i < n; ++i) sq[(size_t)i] = y[(size_t)order[(size_t)i]];
+                    const long long inv = inversions(sq, tmp, 0, (size_t)n), pairs = (long long)n * (n - 1) / 2;
+                    ref = (ld)(pairs - 2 * inv) / (ld)pairs;
+                    tol = 8 * EPS;
+                }
+                const double err = std::fabs((double)((ld)got - ref));
+                if (err <= tol) ctx.worst(std::string("corr.large ") + TYN[ty] + " |err|/tol (passing cases)", err / tol);
+                if (inc || dec) ctx.note(std::string("corr.large ") + TYN[ty] + (inc ? " strictly increasing relation" : " strictly decreasing relation"));
+                if (!(err <= tol)) ctx.fail("corr", fmt("corr(x,y)=%.17g", got), fmt("%.17Lg +- %.3g", ref, tol), P().kv("what", "value"));
+                if (!(std::fabs(got - swp) <= 1e-12)) ctx.fail("corr", fmt("corr(x,y)=%.17g corr(y,x)=%.17g", got, swp), "|difference| <= 1e-12", P().kv("what", "symmetry"));
+                if (!(std::fabs(got) <= 1 + std::max(4 * EPS, tol))) ctx.fail("corr", fmt("corr=%.17g", got), "in [-1,1] (to rounding)", P().kv("what", "range"));
+                if ((inc || dec) && ty != 0 && !(std::fabs(got - (inc ? 1.0 : -1.0)) <= tol))
+                    ctx.fail("corr", fmt("corr=%.17g", got), inc ? "+1 (strictly increasing relation)" : "-1 (strictly decreasing relation)", P().kv("what", "unit"));
+            }
+}
+
 int main(int argc, char** argv) {
     Ctx ctx;
     ctx.parse(argc, argv, "C16");
@@ -594,6 +744,7 @@ int main(int argc, char** argv) {
     run_sort(ctx);
     run_medfilt(ctx, T);
     run_corr(ctx, T);
+    run_corr_large(ctx, T);
     if (T) run_corr_n7(ctx);
     return ctx.finish();
 }
